@@ -20,14 +20,15 @@ SPEC = dict(
     nontrivial=nontrivial,
     rule="cases = one sampler configuration (0-3 key fields, 0-2 root.-prefixed fields, UseTraceLength on/off) and a "
          "family of traces run through the real traceKey.build and the five real samplers' GetSampleRate: a base trace "
-         "of 1-5 spans (typed values incl. empty strings and values containing the delimiters) with every permutation "
+         "of 1-5 spans (typed logical values: strings incl. empty and with delimiters, every Go integer type incl. uint64 around 2^63 and 2^64-1, MinInt64, the same number under several types, floats, bool, nil, slices) with every permutation "
          "of its spans (all 120 for 5 spans in 40% of those cases, 24 random ones otherwise), duplicated spans, "
-         "one-value mutations, 97-199 distinct values around the cap of 100, and edge configurations; "
+         "one-value mutations, 97-199 distinct values around the cap of 100, edge configurations, and families of small traces over a small value pool (empty-string pool, integer-edge pool) for the separation claim; "
          "non-trivial = a non-empty field list and at least 3 different traces whose key was observed; "
          "distinct by transcript hash",
     trusted_base=["math/rand made reproducible with rand.Seed (GODEBUG randseednop=0 in the harness binary only): the draw is "
                   "recomputed by the harness with the same seed and the returned rate",
-                  "value renderings (AddAsString / fmt %v) and dynsampler's answer are taken from the running code as `ext` values",
+                  "the text of float64 / other-typed values is taken from the Go standard library (strconv.FormatFloat 'f' -1, fmt %v), computed by the harness itself, never from AddAsString; "
+                  "strings, all Go integer types, bool and nil are rendered by the Lean model; dynsampler's answer is taken from the running dynsampler as `ext`",
                   "types.NewPayload (memoized fields) as the span payload"],
     manifest=dict(
         text="Lean theorems over all traces, field lists and value renderings: the key is a function of the per-field sets of "
@@ -43,7 +44,7 @@ SPEC = dict(
         technique="Lean 4 proof (canonical form of the key below the cap; parsing the key back for separation) + model/implementation correspondence check",
     ),
     assumptions=["distinctValue dedups by wyhash of the rendering; the model dedups by the rendering (no 64-bit collision among one trace's values)",
-                 "a 'value' is its rendering by AddAsString: 1, \"1\" and 1.0 are the same value (as TestDistinctValue_AddAsString expects)",
+                 "values are logical, type-tagged values supplied by the generator; the key is text, so separation carries the explicit hypothesis RenderInj (different values involved in a field render differently): int64 1, uint64 1, \"1\" and float64 1 in one field are indistinguishable by design of the key format (TestDistinctValue_AddAsString expects it); integers with different numbers always render differently (render_int_inj)",
                  "sort.Strings (byte order) equals Lean's String order (code point order) on valid UTF-8; generated strings are valid UTF-8",
                  "key separation is claimed below the cap only (fewer than maxKeyLength distinct (field,value) pairs in both traces)",
                  "dynsampler's answer is any Go int (forced to 0, negative and max-int values in the harness); since commit 6dd5492 it is clamped to >= 1 before the uint conversion, so GetSampleRate never panics (never_panics); any panic is a monitor failure",
